@@ -48,6 +48,8 @@ def expectation(desc, modes):
     v = desc.get("value")
     parts = form.split(",")
     f = parts[0]
+    if ("reglist" in ms or "regpair" in ms) and f not in ("reglist", "regpair"):
+        return ("none",)          # the grid's operand forms mean something else for PSH/PUL/TFR/EXG
     if f == "inh":
         return ("valid", lambda fl, val: fl == ["inh"]) if "inh" in ms else ("reject",)
     if f == "reglist":
